@@ -1,3 +1,4 @@
+import Cactus.Lemmas.Final
 import Cactus.Lemmas.Orphan
 import Cactus.Props.C16
 import Cactus.Props.C04
@@ -43,5 +44,41 @@ theorem C02_trace_reads_live_only (s : State) (x : Nat) (hO : s.InvO) (hB : s.In
 /-- releasing is never silent on a released allocation (see also `C04_no_double_release`) -/
 theorem C02_no_silent_double_free (s : State) (o : Nat) (h : s.cell o = none) (he : s.err = none) :
     (s.weakDrop o).err = some (.uaf o) := (C04_no_double_release s o false h he).1
+
+
+/-! ## Over whole contract-respecting histories -/
+
+/-- **C02 (no access after release, handle side).** In every state of every contract-respecting
+execution, every strong handle that still exists anywhere — in the program, inside a stored value,
+or owned by a pending teardown frame (this includes the handles that the values of a collected
+group hold to each other, which are dropped while the members' values are being destroyed) —
+targets an allocation that has not been released; so the `Rc::drop` that will eventually consume it
+reads valid counter cells. -/
+theorem C02_no_handle_to_released_allocation {s : State} (h : ReachableP s) (he : s.err = none) {o : Nat}
+    (hh : 0 < s.ext o + s.inHeap o + s.pend o) : (s.cell o).isSome = true := by
+  have hS := reachableP_invS h he
+  by_cases h1 : 0 < s.ext o + s.inHeap o
+  · exact State.isLive_cell_isSome (hS.1 o h1)
+  · have hp : 0 < s.pend o := by omega
+    cases hl : s.isLive o with
+    | true => exact State.isLive_cell_isSome hl
+    | false =>
+      obtain ⟨ob, hg, _, _, himp⟩ := hS.2.1 o hp hl
+      have hc := (reachable_core h.reachable he).1
+      have hw := hc.2.2.2.1 o (State.get_lt hg)
+      have hfz := (hc.1 o ob hg).2.2.2
+      have : ob.freed = false := by
+        cases hf : ob.freed with
+        | false => rfl
+        | true =>
+          have h0 := hfz.mp hf
+          simp [State.weakNat, hg, State.implicitNat, himp, h0] at hw
+      simp [State.cell, hg, this]
+
+/-- **C02 (no double release).** Each implicit weak reference is owed by at most one pending
+continuation, and only while the object still owns it: a second release of the same allocation by
+the library cannot be scheduled (no hypothesis on the history) -/
+theorem C02_release_scheduled_at_most_once {s : State} (h : Reachable s) (he : s.err = none) (o : Nat) :
+    s.owed o ≤ 1 := (reachable_core h he).1.2.2.2.2.2.2 o
 
 end Cactus
